@@ -13,6 +13,11 @@ def run(ctx):
         H, impl, model, dis, hits = hc.run_profile(ctx, lambda rng: profiles.static_history(rng, multibyte=(rng.random() < 0.2)), k, config=cfg,
             claims=lambda op, a, b: op == 'DE' and a in ('NONE',), extra_oracle=orc, trigger=trigger, label='static structures x policies')
         if hits: break
+    if not hits:
+        # the cover relation along HISTORIES: attributes deleted and re-created (possibly across a master-key round trip or
+        # backup/restore), rotations, refreshes; the name-level reference semantics says who opens what
+        m = 120 if ctx.quick() else 3000
+        hc.run_profile(ctx, lambda rng: profiles.identity_scenario(rng) if rng.random() < 0.5 else profiles.DYN(rng), m, claims=lambda op, a, b: op == 'DE' and a == 'NONE', label='cover relation along histories')
     hc.vm_crosscheck(ctx, H, model)
     hc.finish(ctx, f'{n} (default build) + {max(60, n // 4)} (p-256 + ml-kem-768 build) generated structures (1-4 dimensions, 0-4 attributes, both kinds, mixed hints, edits before the update) '
               'each with 2-5 user policies and 3-8 encryption policies (AND/OR/parentheses/*), all pairs decapsulated; oracle = name-level cover relation of the property text; '
